@@ -127,11 +127,51 @@ SUB_TEMPLATES = [
 ]
 
 
+CTX_OPERANDS = ["RsV", "RssV", "RsN", "NsN", "PsV", "PsN", "CsV", "CssV", "MuV", "RxV", "RxxV", "RdV", "RddV", "PdV",
+                "siV", "uiV", "SiV", "UiV", "riV"]
+CTX_LITERALS = ["-4", "2 - 6", "2 * 6", "2 + 6", "~5", "-(3)", "-1LL", "0xffffffffU", "3 - 2 - 4", "-(2 * 3)", "0x10",
+                "(2 < 3)", "4 - 1 * 6"]
+READ_CONTEXTS = ["{ RdV = (int32_t) mem_load_s32(@); }", "{ mem_store_u32(@, RtV); }", "{ mem_store_u64(RtV, @); }",
+                 "{ mem_store_u8(RtV, @); }", "{ JUMP(@); }", "{ if (@) { RdV = 1; } }", "{ RdV = @ ? 1 : 2; }",
+                 "{ RdV = clz32(@); }", "{ RdV = (@ == 3); }", "{ RdV = (int32_t) mem_load_u8(@ + 1); }",
+                 "{ RdV = extract32(@, 0, 4); }", "{ int64_t q = @; RddV = q; }"]
+WRITE_CONTEXTS = ["{ @ = RtV; }", "{ @ += 1; }", "{ @++; }", "{ @ = (int32_t) mem_load_s16(RtV); }", "{ if (RtV) { @ = 1; } }",
+                  "{ @ = @ + 4; }"]
+
+
+def context_templates():
+    """operand spelling x context and literal shape x context: the C names the compiler derives from operand text
+    (ml_<addr>, ms_<data>, jump_<target>, <name>_op) must stay identifiers, be declared once and before use"""
+    from . import c07
+    from ..cref.ast import classify
+    toks = list(CTX_OPERANDS)
+    for e in c07.EXPLICIT:
+        toks += [e, e + "_NEW"]
+    for a in c07.ALIASES + ["PC"]:
+        toks += [f"HEX_REG_ALIAS_{a}", f"HEX_REG_ALIAS_{a}_NEW"]
+    out = []
+    for tok in toks:
+        o = classify(tok)
+        for c in READ_CONTEXTS:
+            if tok.startswith(("RdV", "RddV", "PdV")) and "RdV" in c.replace("@", ""):
+                continue
+            out.append(c.replace("@", tok))
+        writable = o is not None and o.kind != "imm" and getattr(o, "access", "r") in ("w", "rw") and not tok.endswith("_NEW") \
+            or tok in c07.EXPLICIT or (tok.startswith("HEX_REG_ALIAS_") and not tok.endswith("_NEW"))
+        if writable:
+            out += [c.replace("@", tok) for c in WRITE_CONTEXTS]
+    for lit in CTX_LITERALS:
+        out += [c.replace("@", lit) for c in READ_CONTEXTS]
+    return out
+
+
 def template_texts(which):
     from . import c07, c09, c15
     t = [x for _, x in c07.spelling_cells()] + list(c15.TEMPLATES)
     if which != "C10":
         t += list(c09.DEAD_ARM_TEMPLATES)
+    if which == "C11":
+        t += context_templates()
     return t
 
 
